@@ -11,7 +11,7 @@ use crate::runner::{guarded, on, PanicVerdict, Side};
 use crate::scenario::{Op, Scenario, Violation};
 use crate::stats::{phase, Stats};
 use crate::sut::{build_spec, Fx, Kind, Mode, NodeSpec, Params, ALL_KINDS};
-use crate::world::{Fault, Regime, StreamDesc, World};
+use crate::world::{Fault, Regime, StreamDesc};
 use serde_json::json;
 use std::time::{Duration, Instant};
 
@@ -58,18 +58,22 @@ pub fn exec(sc: &Scenario, st: &mut Stats) -> Option<Violation> {
     let mut size_first: Option<u64> = None;
     let mut size_constant = true;
     let mut found: Option<Violation> = None;
-    'ops: for (i, op) in sc.ops.iter().enumerate() {
-        let (desc, skip, len) = match op {
-            Op::Gen { g, skip, len, .. } => (*g, *skip, *len),
+    let mut faults_fired = 0u64;
+    let mut resets_done = 0u64;
+    for (i, op) in sc.ops.iter().enumerate() {
+        let (desc, skip, len, fault, every, reset_every) = match op {
+            Op::Gen { g, skip, len, fault, every, reset_every, .. } => (*g, *skip, *len, *fault, *every, *reset_every),
             _ => continue,
         };
-        let mut w = World::from_desc(&desc);
-        for _ in 0..skip {
-            let _ = w.clean();
-        }
-        for _ in 0..len {
-            let x = w.clean();
-            let (o, _) = on(Side::Subject, || node.feed(spec.mode, &x));
+        crate::world::expand_gen(&desc, skip, len, fault, every, reset_every, |x, fk, reset| {
+            if reset {
+                on(Side::Subject, || node.reset());
+                resets_done += 1;
+            }
+            if fk != Fault::Clean {
+                faults_fired += 1;
+            }
+            let (o, _) = on(Side::Subject, || node.feed(spec.mode, x));
             digest = fnv_u64(digest, o.bits()[0]);
             t += 1;
             if t == warm {
@@ -79,7 +83,7 @@ pub fn exec(sc: &Scenario, st: &mut Stats) -> Option<Violation> {
             }
             let probe = t <= dense || t.is_power_of_two() || t % 4096 == 0;
             if !probe {
-                continue;
+                return true;
             }
             probes += 1;
             // disk quota: size of the checkpoint this node would write now
@@ -87,7 +91,7 @@ pub fn exec(sc: &Scenario, st: &mut Stats) -> Option<Violation> {
                 Ok(s) => s,
                 Err(e) => {
                     found = Some(viol("serialized-size", kind, i, format!("serialized_size failed at tick {}: {}", t, e), format!("<= {}", b), e));
-                    break 'ops;
+                    return false;
                 }
             };
             max_size = max_size.max(size);
@@ -101,7 +105,7 @@ pub fn exec(sc: &Scenario, st: &mut Stats) -> Option<Violation> {
             }
             if size as i64 > b {
                 found = Some(viol("serialized-size", kind, i, format!("disk quota exceeded at tick {}: bincode size {} > B = {} (sum of periods {})", t, size, b, sp), format!("<= {}", b), format!("{}", size)));
-                break 'ops;
+                return false;
             }
             // memory cap
             if have_alloc {
@@ -111,13 +115,13 @@ pub fn exec(sc: &Scenario, st: &mut Stats) -> Option<Violation> {
                     max_growth = max_growth.max(growth);
                     if growth > b {
                         found = Some(viol("heap-growth", kind, i, format!("memory cap exceeded at tick {}: live heap grew by {} bytes since warm-up (B = {}, construction footprint {})", t, growth, b, footprint), format!("<= {}", b), format!("{}", growth)));
-                        break 'ops;
+                        return false;
                     }
                     let pk = alloc::peak() - base - lw;
                     max_peak = max_peak.max(pk);
                     if pk > b {
                         found = Some(viol("heap-peak", kind, i, format!("memory cap exceeded transiently before tick {}: peak live heap {} bytes above the warm-up level (B = {})", t, pk, b), format!("<= {}", b), format!("{}", pk)));
-                        break 'ops;
+                        return false;
                     }
                 }
             }
@@ -127,17 +131,21 @@ pub fn exec(sc: &Scenario, st: &mut Stats) -> Option<Violation> {
                     Ok(bytes) => {
                         if bytes.len() as i64 > b {
                             found = Some(viol("serialized-size", kind, i, format!("checkpoint of {} bytes at tick {} exceeds the disk quota B = {}", bytes.len(), t, b), format!("<= {}", b), format!("{}", bytes.len())));
-                            break 'ops;
+                            return false;
                         }
                         drop(bytes);
                         alloc::reset_peak();
                     }
                     Err(e) => {
                         found = Some(viol("serialized-size", kind, i, format!("serialize failed at tick {}: {}", t, e), format!("<= {}", b), e));
-                        break 'ops;
+                        return false;
                     }
                 }
             }
+            true
+        });
+        if found.is_some() {
+            break;
         }
     }
     let allocs_run = alloc::allocs().saturating_sub(allocs_warm);
@@ -167,10 +175,15 @@ pub fn exec(sc: &Scenario, st: &mut Stats) -> Option<Violation> {
     }
     let lenc = if t < 1000 { 0 } else if t < 50_000 { 1 } else if t < 500_000 { 2 } else { 3 };
     for op in &sc.ops {
-        if let Op::Gen { g, .. } = op {
-            st.situation(kind, &spec.params, phase(t, spec.params.window(kind), false), g.regime as u64, Fault::Clean, spec.mode, lenc);
+        if let Op::Gen { g, fault, reset_every, .. } = op {
+            st.situation(kind, &spec.params, phase(t, spec.params.window(kind), false), g.regime as u64 | if *reset_every > 0 { 64 } else { 0 }, fault.unwrap_or(Fault::Clean), spec.mode, lenc);
+            if let Some(f) = fault {
+                *st.faults.entry(f.name()).or_insert(0) += faults_fired.min(1);
+            }
         }
     }
+    st.add("corrupt_ticks_delivered", faults_fired);
+    st.add("resets_inside_streams", resets_done);
     st.max("max_serialized_size_over_bound", max_size as f64 / b as f64);
     st.max("max_heap_growth_over_bound", max_growth as f64 / b as f64);
     st.max("max_transient_peak_over_bound", max_peak as f64 / b as f64);
@@ -208,7 +221,7 @@ pub fn exec_plain(sc: &Scenario) -> Option<Violation> {
 }
 
 fn stream(shape: Regime, level: f64, saw: usize, seed: u64, len: u64) -> Op {
-    Op::Gen { n: 0, g: StreamDesc { regime: shape, level: Fx(level), saw, seed }, skip: 0, len }
+    Op::Gen { n: 0, g: StreamDesc { regime: shape, level: Fx(level), saw, seed }, skip: 0, len, fault: None, every: 0, reset_every: 0 }
 }
 
 fn spec_for(kind: Kind, sum: usize, mode_sel: u64, split: u64) -> NodeSpec {
@@ -265,6 +278,20 @@ pub fn generate(rng: &mut Rng, tier: Tier) -> Scenario {
         ops.push(stream(b, level, rng.range(2, 31), rng.u64(), len - len / 2));
     } else {
         ops.push(stream(*rng.pick(&SHAPES), level, rng.range(2, 31), rng.u64(), len));
+    }
+    // 35% of the runs: a corrupt feed (a fault value every k-th tick) and/or periodic resets - an
+    // 'anomaly log' or a per-reset leak grows only then
+    if rng.chance(0.35) {
+        let f = if rng.chance(0.8) { Some(*rng.pick(&crate::world::VALUE_FAULTS)) } else { None };
+        let ev = if f.is_some() { rng.log_range(1, 500) as u64 } else { 0 };
+        let re = if rng.chance(0.5) { rng.log_range(1, 5000) as u64 } else { 0 };
+        for op in ops.iter_mut() {
+            if let Op::Gen { fault, every, reset_every, .. } = op {
+                *fault = f;
+                *every = ev;
+                *reset_every = re;
+            }
+        }
     }
     Scenario { property: PROP.into(), stage: "seeded".into(), nodes: vec![spec], ops, workers: 0 }
 }
